@@ -14,6 +14,7 @@ class Adapter:
 
     def __init__(self, langs=None, **kw):
         self.langs = langs or {}
+        self.seen = set()
 
     def on_timeout(self, case):
         return {'steps': 1, 'div': [{'kind': 'timeout', 'action': 'Neo4j', 'component': 'timeout', 'features': [],
@@ -28,6 +29,10 @@ class Adapter:
         if not hist or hist[-1]['act']['res'] == 'collide':
             return res
         exp = norm_expected(hist[-1]['obs'])
+        key = lang + json.dumps([case['abs']['assets'], case['abs']['links']], sort_keys=True)
+        if key in self.seen:
+            return res
+        self.seen.add(key)
         drv = ModelDriver(ctx)
         for s in hist:
             if drv.apply(s['act']) != s['act']['res']:
